@@ -240,7 +240,7 @@ def pCall : P Call := fun ts => do
   pure ({ v := v, ty := ty, f := { space := sp, keepS := ks, indent := ind, alwaysS := al } }, ts)
 
 def showErr : Err → String
-  | .attributeError => "AttributeError" | .indexError => "IndexError" | .valueError => "ValueError"
+  | .indexError => "IndexError"
 
 def showRes : Except Err Cps → String
   | .ok t => "OK " ++ encCps t
